@@ -328,13 +328,22 @@ def get_item(I, obj, key, node):
         return mk_int(T.bat(b, i))
     if obj.kind == 'cdict':
         from .ops import eq_terms
-        for k, v in obj.t:
-            e = z3.simplify(eq_terms(I, key, k, node))
+        eqs = [z3.simplify(eq_terms(I, key, k, node)) for k, _ in obj.t]
+        for (k, v), e in zip(obj.t, eqs):
             if z3.is_true(e):
                 return v
-            if not z3.is_false(e):
-                if I.path.decide(e):
-                    return v
+        live = [(v, e) for (k, v), e in zip(obj.t, eqs) if not z3.is_false(e)]
+        if live and all(v.kind == 'str' for v, _ in live) and key.kind == 'str':
+            # a table of strings looked up with a symbolic key: one decision (present / KeyError), value as an ite chain
+            if not I.spec and not I.path.decide(z3.Or(*[e for _, e in live])):
+                I.raise_('KeyError', node)
+            t = live[-1][0].t
+            for v, e in reversed(live[:-1]):
+                t = z3.If(e, v.t, t)
+            return mk_str(t)
+        for v, e in live:
+            if I.path.decide(e):
+                return v
         I.raise_('KeyError', node)
     if obj.kind == 'ext':
         return I.registry.ext_getitem(I, obj, key, node)
